@@ -362,41 +362,12 @@ Definition extend_class (a : loc) (d N : Z) (circ : bool) : Z :=
        then (if N <? end_pt a - start_pt a + N + 2 * d then 1 else 0)
        else 0.
 
-(* recorded finding classes of offset_location with a wrap point (bit mask):
-   1 (offset_merge_drops_part) = the final merge loop meets a touching pair of parts directly after a touching pair
-       (`merged[-1] = FeatureLocation(previous.start, part.end)` with `previous` the last RAW part, not the merged
-       one): the first part of the run is lost;
-   2 (offset_reverse_wrap_order) = reverse strand, and a shifted exon is split at the wrap point (emitted as
-       [s,N) then [0,e), the forward order) or two touching raw parts are merged in listed order: the bases are
-       right, the transcription order is not (the result is no longer recognised as crossing the origin). *)
-Definition offset_raw_parts (a : loc) (off N : Z) : list part :=
-  flat_map (fun p =>
-      let s := (ps p + off + N) mod N in
-      let e := (pe p + off - 1 + N) mod N + 1 in
-      if (0 <=? s) && (s <? e) && (e <=? N) then [mkPart s e (pst p)]
-      else [mkPart s N (pst p); mkPart 0 e (pst p)]) a.
-Fixpoint touching_run (l : list part) : bool :=
-  match l with
-  | p :: ((q :: r :: _) as t) => ((pe p =? ps q) && (pe q =? ps r)) || touching_run t
-  | _ => false
-  end.
-Fixpoint touching_pair (l : list part) : bool :=
-  match l with
-  | p :: ((q :: _) as t) => (pe p =? ps q) || touching_pair t
-  | _ => false
-  end.
-Definition offset_nontrivial (a : loc) (off N : Z) : bool :=
-  negb (off =? 0) && (1 <=? N) && negb (llen a =? N) &&
-  negb ((0 <=? lstart a + off) && (lstart a + off <? lend a + off) && (lend a + off <=? N)).
-Definition offset_class (a : loc) (off : Z) (w : option Z) : Z :=
-  match w with
-  | Some N =>
-    if negb (offset_nontrivial a off N) then 0 else
-    let raw := offset_raw_parts a off N in
-    (if touching_run raw then 1 else 0) +
-    (if (lstrand a =? -1) && (negb (Z.of_nat (length raw) =? Z.of_nat (length a)) || touching_pair raw) then 2 else 0)
-  | None => 0
-  end.
+(* The former finding classes of offset_location with a wrap point (fn 207: offset_merge_drops_part - the merge loop
+   rebuilt a merged part from the last RAW part and lost the first part of a run of three touching parts;
+   offset_reverse_wrap_order - a reverse-strand exon split at the wrap point was emitted in forward order and
+   touching reverse-strand parts were merged in listed order) were repaired in the code: nothing is classified or
+   suppressed for offset_location any more; Common/Loc.v transcribes the repaired loop and specification 107
+   (check_offset_ring, all seven clauses) holds for the model on every input (Proofs.v offset_ring_spec). *)
 
 (* ---- location_bridges_origin(location, allow_reversing=True): the answer and the argument afterwards ----
    documented: a reverse-strand location in the alternate exon order whose reversed order is a valid
@@ -589,9 +560,6 @@ Definition run_call (fn : Z) (l : list Z) : list Z :=
              | Some (a', []) => verdict true (check_bridges_reversing a (negb (o =? 0)) a')
              | _ => match o :: r with [-1; _] => [0; 3] | _ => bad_input end
              end
-           | _ => bad_input end
-  | 207 => match dPair (dPair dLoc dZ) dWrap l with
-           | Some ((a, off, w), _) => [offset_class a off w]
            | _ => bad_input end
   | 208 => match dPair (dPair dLoc dZ) (dPair dZ dBool) l with
            | Some ((a, d, (m, c)), _) => [extend_class a d m c]
